@@ -50,8 +50,58 @@ def E(n):
     if isinstance(n, ast.Subscript):
         return {"e": "index", "obj": E(n.value), "key": E(n.slice)}
     if isinstance(n, ast.Lambda):
-        return {"e": "lambda", "params": [a.arg for a in n.args.args], "body": E(n.body)}
+        d = {"e": "lambda", "params": [a.arg for a in n.args.args], "body": E(n.body)}
+        fv, facts = ieee_facts(n)
+        if facts:
+            d["fv"], d["ieee"] = fv, facts
+        return d
     raise Unsupported(ast.dump(n))
+
+
+IEEE_BOUND = 24
+
+
+def ieee_facts(lam):
+    """Where IEEE-754 double evaluation (CPython's float arithmetic: trusted base) of a one-parameter arithmetic lambda differs from its exact
+    rational value: the points (argument, free variables) over non-negative integers < IEEE_BOUND at which the exact value is an integer and
+    the float value is not.  Only lambdas that divide by a constant can have such points.  Returns (free variable names, facts)."""
+    import itertools
+    from fractions import Fraction
+    if len(lam.args.args) != 1 or not any(isinstance(x, ast.Div) for x in ast.walk(lam.body)):
+        return [], []
+    ok = (ast.BinOp, ast.UnaryOp, ast.Name, ast.Constant, ast.Add, ast.Sub, ast.Mult, ast.Div, ast.USub, ast.Load)
+    if not all(isinstance(x, ok) for x in ast.walk(lam.body)):
+        return [], []
+    param = lam.args.args[0].arg
+    fv = sorted({x.id for x in ast.walk(lam.body) if isinstance(x, ast.Name)} - {param})
+    if len(fv) > 2:
+        return [], []
+    src = ast.unparse(lam.body)
+    code = compile(ast.Expression(lam.body), "<lambda>", "eval")
+
+    def exact(node, env):
+        if isinstance(node, ast.Constant):
+            return Fraction(node.value)
+        if isinstance(node, ast.Name):
+            return Fraction(env[node.id])
+        if isinstance(node, ast.UnaryOp):
+            return -exact(node.operand, env)
+        a, b = exact(node.left, env), exact(node.right, env)
+        return a + b if isinstance(node.op, ast.Add) else a - b if isinstance(node.op, ast.Sub) else a * b if isinstance(node.op, ast.Mult) else a / b
+
+    facts = []
+    for arg in range(IEEE_BOUND):
+        for vals in itertools.product(range(IEEE_BOUND), repeat=len(fv)):
+            env = dict(zip(fv, vals))
+            env[param] = arg
+            try:
+                ex = exact(lam.body, env)
+                fl = eval(code, {"__builtins__": {}}, dict(env))
+            except (ZeroDivisionError, TypeError):
+                continue
+            if ex.denominator == 1 and isinstance(fl, float) and fl % 1 != 0:
+                facts.append({"arg": arg, "fv": list(vals), "delta": 1 if Fraction(fl) > ex else -1})
+    return fv, facts
 
 
 def P(n):
